@@ -22,7 +22,8 @@ FIXED = True   # fix: commits 7597eca, 2492808, cbb8087 are in /repo
 TRUSTED = [
     "Model/Dups.v is a hand transcription of GroupValidator.check_tag_level_issue / check_multiple_unique_tags_exist / "
     "check_for_required_tags / validate_duration_tags / _check_for_duplicate_groups(_recursive), HedGroup._sorted / "
-    "__str__ / get_all_tags / get_all_groups, HedTag.__eq__ and HedString.find_top_level_tags; tied by the "
+    "__str__ / get_all_tags / get_all_groups, HedTag.__eq__, HedString.find_top_level_tags and "
+    "DefValidator.validate_onset_offset / _handle_onset_or_offset / HedGroup._get_def_tags_from_group; tied by the "
     "correspondence run (internal error kinds in order, published codes, IndexError)",
     "Gen/C04Codes.v (kind -> published code) is regenerated from hed/errors/error_messages.py, error_types.py, "
     "model_constants.py and group_util.py on every run (ast, fail closed)",
@@ -36,8 +37,10 @@ ASSUMPTIONS = [
     "validated before; tag resolution (HedSchema._find_tag_entry) is an input of the model, and that a schema object "
     "does not remember earlier spellings/values is checked by the history stream on the implementation only (testing)",
     "theorems are about the group rules of group_util (placement, unique/required, Duration/Delay, duplicates); "
-    "the basic-phase checks (characters, delimiters, per-tag rules, Def validation) and DefValidator.validate_onset_offset "
-    "are covered by the metamorphic oracle on the implementation only (testing)",
+    "the basic-phase checks (characters, delimiters, per-tag rules, Def validation) are covered by the metamorphic "
+    "oracle on the implementation only (testing); C04_onset_invariant_order (Onset/Inset/Offset shape rule) assumes that "
+    "the Def names resolve (t_def = 0, guaranteed by the basic phase) -- without it the rule is order dependent "
+    "(C04_onset_order_refuted_unresolved_def, only reachable by calling validate_onset_offset directly)",
     "positive duplicate theorems hold for the REPAIRED variant (fixed=true: canonical folded sort key, folded short-form "
     "equality); for the code as it is they are refuted by kernel-evaluated witnesses (C04-F1, C04-F2)",
     "well-formedness hypothesis of the positive theorems: folded short forms are non-empty and free of ',()' (guaranteed "
@@ -46,7 +49,9 @@ ASSUMPTIONS = [
 
 KINDS = ["GROUP_EMPTY", "TAG_GROUP_TAG", "TOP_LEVEL_TAG", "TOP_LEVEL_TAG_DEFINITION", "TOP_LEVEL_TAG_TEMPORAL",
          "MULTIPLE_TOP_TAGS", "TAG_REPEATED", "TAG_REPEATED_GROUP", "TAG_NOT_UNIQUE", "REQUIRED_TAG_MISSING",
-         "DURATION_HAS_OTHER_TAGS", "DURATION_WRONG_NUMBER_GROUPS"]
+         "DURATION_HAS_OTHER_TAGS", "DURATION_WRONG_NUMBER_GROUPS",
+         "ONSET_NO_DEF_TAG_FOUND", "ONSET_TOO_MANY_DEFS", "ONSET_WRONG_NUMBER_GROUPS", "ONSET_TAG_OUTSIDE_OF_GROUP",
+         "ONSET_DEF_UNMATCHED", "ONSET_PLACEHOLDER_WRONG"]
 # model kind -> (class, constant) of the internal error kind, and the actual_error override given at the call site
 KIND_SRC = {
     "GROUP_EMPTY": ("ValidationErrors", "HED_GROUP_EMPTY", None),
@@ -61,6 +66,12 @@ KIND_SRC = {
     "REQUIRED_TAG_MISSING": ("ValidationErrors", "REQUIRED_TAG_MISSING", None),
     "DURATION_HAS_OTHER_TAGS": ("TemporalErrors", "DURATION_HAS_OTHER_TAGS", None),
     "DURATION_WRONG_NUMBER_GROUPS": ("TemporalErrors", "DURATION_WRONG_NUMBER_GROUPS", None),
+    "ONSET_NO_DEF_TAG_FOUND": ("TemporalErrors", "ONSET_NO_DEF_TAG_FOUND", None),
+    "ONSET_TOO_MANY_DEFS": ("TemporalErrors", "ONSET_TOO_MANY_DEFS", None),
+    "ONSET_WRONG_NUMBER_GROUPS": ("TemporalErrors", "ONSET_WRONG_NUMBER_GROUPS", None),
+    "ONSET_TAG_OUTSIDE_OF_GROUP": ("TemporalErrors", "ONSET_TAG_OUTSIDE_OF_GROUP", None),
+    "ONSET_DEF_UNMATCHED": ("TemporalErrors", "ONSET_DEF_UNMATCHED", None),
+    "ONSET_PLACEHOLDER_WRONG": ("TemporalErrors", "ONSET_PLACEHOLDER_WRONG", None),
 }
 CODE_IDS = {"TAG_EMPTY": 1, "TAG_GROUP_ERROR": 2, "DEFINITION_INVALID": 3, "TEMPORAL_TAG_ERROR": 4,
             "TAG_EXPRESSION_REPEATED": 5, "TAG_NOT_UNIQUE": 6, "REQUIRED_TAG_MISSING": 7}
@@ -282,7 +293,7 @@ def _intern(table, reserved, key):
     if key in reserved:
         return reserved[key]
     if key not in table:
-        table[key] = 7 + len(table)
+        table[key] = 9 + len(table)
     return table[key]
 
 
@@ -294,7 +305,19 @@ def model_input(hs):
     sch = schema()
     uniq = sch.get_tags_with_attribute(HedKey.Unique)
     req = sch.get_tags_with_attribute(HedKey.Required)
-    names = [D.DEFINITION_KEY, D.ONSET_KEY, D.OFFSET_KEY, D.INSET_KEY, D.DURATION_KEY, D.DELAY_KEY]
+    names = [D.DEFINITION_KEY, D.ONSET_KEY, D.OFFSET_KEY, D.INSET_KEY, D.DURATION_KEY, D.DELAY_KEY,
+             D.DEF_KEY, D.DEF_EXPAND_KEY]
+    defs = defdict().defs
+
+    def def_state(ch):
+        # what DefValidator._handle_onset_or_offset finds for this tag
+        if ch.short_base_tag not in (D.DEF_KEY, D.DEF_EXPAND_KEY):
+            return 0
+        name, _, ph = ch.extension.partition("/")
+        entry = defs.get(name.casefold())
+        if entry is None:
+            return 1
+        return 2 if bool(entry.takes_value) != bool(ph) else 0
     res_b = {n: i + 1 for i, n in enumerate(names)}
     res_f = {n.casefold(): i + 1 for i, n in enumerate(names)}
     tb, tf = {}, {}
@@ -310,7 +333,7 @@ def model_input(hs):
                     bool(ch.base_tag_has_attribute(HedKey.TopLevelTagGroup)),
                     _intern(tb, res_b, ch.short_base_tag), _intern(tf, res_f, ch.short_base_tag.casefold()),
                     [i for i, p in enumerate(uniq) if lt.startswith(p.casefold())],
-                    [i for i, p in enumerate(req) if lt.startswith(p.casefold())]]
+                    [i for i, p in enumerate(req) if lt.startswith(p.casefold())], def_state(ch)]
         return ["G"] + [node(c) for c in ch.children]
     return [node(c) for c in hs.children], len(req), len(uniq)
 
@@ -369,6 +392,8 @@ def impl_direct(s):
     r["dups"] = _recorded(lambda: gv._check_for_duplicate_groups(hs))
     r["duration"] = _recorded(lambda: GroupValidator.validate_duration_tags(hs))
     r["whole"] = _recorded(lambda: (gv.run_all_tags_validators(hs), gv.run_tag_level_validators(hs)))
+    from hed.validator.def_validator import DefValidator
+    r["onset"] = _recorded(lambda: DefValidator(defdict(), schema()).validate_onset_offset(hs))
     return r
 
 
@@ -406,7 +431,7 @@ def impl_case(case):
            "direct": impl_direct(case["base"])}
     if case.get("planted"):
         out["basic_ok"] = impl_basic_ok(case["base"])
-    if case.get("stream") == "collide":
+    if case.get("stream") in ("collide", "tgroup"):
         # the model's sort key is exercised on the rewrites as well: a wrong (e.g. too coarse) key in the
         # implementation then also shows up as a model/implementation disagreement
         out["direct_rw"] = [impl_direct(y) for y in case["rewrites"][:3]]
@@ -521,7 +546,7 @@ VALUED = ["Label/abc", "Label/ABC", "Label/aB", "Label/a_", "Label/ab", "Label/A
 TEMPORAL = ["Duration/3 s", "Delay/2 s", "Duration/500 ms", "Onset", "Offset", "Inset", "Def/MyDef", "Def/One",
             "Def/ValDef/3", "Def/ValDef/abc", "Event-context", "Def-expand/MyDef", "Def-expand/One", "Definition/X"]
 INVALID = ["Nonsense/x", "Red/Blue", "Event/Myext", "Duration", "Label", "Duration/3 cm", "Def/Nope", "Label/a$b",
-           "Def/MyDef/3", "Def-expand/Nope"]
+           "Def/MyDef/3", "Def-expand/Nope", "Def/ValDef"]
 # value / unit letter-case variants (unit symbols are case sensitive, unit names are not): the value is never
 # rewritten, so these are different annotations whose verdicts are computed per annotation
 HIST_VALUES = {
@@ -576,7 +601,7 @@ def rand_case(rng, name):
 
 def render_tag(rng, v, respell):
     """a valid spelling of vocabulary entry v; the value/extension part is never touched"""
-    forms, extlen = spellings()[v]
+    forms, extlen = spellings().get(v, (None, None))
     if not respell or forms is None:
         return v
     f = rng.choice(forms)
@@ -825,6 +850,85 @@ def gen_twin(rng):
     return {"base": base, "rewrites": rewrites, "planted": None, "stream": "twin", "depth": depth_of(tree)}
 
 
+def _weighted(rng, pairs):
+    x = rng.random() * sum(w for _, w in pairs)
+    for v, w in pairs:
+        x -= w
+        if x <= 0:
+            return v
+    return pairs[-1][0]
+
+
+DEF_EXPAND_GROUPS = {
+    "MyDef": ["G", [["T", "Def-expand/MyDef"], ["G", [["T", "Red"], ["T", "Blue"]]]]],
+    "One": ["G", [["T", "Def-expand/One"], ["G", [["T", "Square"]]]]],
+}
+
+
+def gen_tgroup(rng, all_orders=False):
+    """Temporal groups assembled from ALL their optional parts, as independent dimensions: marker (Onset / Inset /
+    Offset / none) x definition part (Def tag, Def with value, Def-expand group, none, two) x Delay (none, one, two)
+    x Duration x inner groups (0, 1, 2) x stray tag.  The rewrites are member ORDERS of that group (all of them
+    when all_orders, else up to 12 distinct ones), some also respelled / re-blanked."""
+    import itertools
+    marker = _weighted(rng, [("Onset", 40), ("Inset", 20), ("Offset", 20), (None, 20)])
+    members = []
+    if marker:
+        members.append(["T", marker])
+        if rng.random() < 0.07:
+            members.append(["T", rng.choice(["Onset", "Inset", "Offset"])])
+        d = _weighted(rng, [("tag", 45), ("val", 12), ("expand", 25), ("none", 6), ("two", 6), ("badval", 6)])
+        if d == "tag":
+            members.append(["T", rng.choice(["Def/MyDef", "Def/One", "Def/mydef"])])
+        elif d == "val":
+            members.append(["T", "Def/ValDef/3"])
+        elif d == "badval":
+            members.append(["T", rng.choice(["Def/ValDef", "Def/MyDef/3", "Def/Nope"])])
+        elif d == "expand":
+            members.append(copy.deepcopy(DEF_EXPAND_GROUPS[rng.choice(["MyDef", "One"])]))
+        elif d == "two":
+            members += [["T", "Def/MyDef"], rng.choice([["T", "Def/One"], copy.deepcopy(DEF_EXPAND_GROUPS["One"])])]
+    delay = _weighted(rng, [(0, 30 if marker else 45), (1, 60 if marker else 45), (2, 6)])
+    for _ in range(delay):
+        members.append(["T", rng.choice(["Delay/2 s", "Delay/2 S", "Delay/2 seconds"]) if rng.random() < 0.3 else "Delay/2 s"])
+    if (marker is None and (delay == 0 or rng.random() < 0.6)) or (marker and rng.random() < 0.06):
+        members.append(["T", rng.choice(["Duration/3 s", "Duration/500 ms"])])
+    for _ in range(_weighted(rng, [(0, 25), (1, 60), (2, 15)])):
+        members.append(["G", gen_tree(rng, rng.choice([0, 0, 1]), "valid")])
+    if rng.random() < 0.12:
+        members.append(["T", rng.choice(PLAIN)])
+    if len(members) > 6:
+        members = members[:6]
+    rng.shuffle(members)
+    grp = ["G", members]
+    others = [["T", rng.choice(PLAIN)] for _ in range(rng.randint(0, 2))]
+    if rng.random() < 0.25:
+        others.append(["G", gen_tree(rng, 1, "valid")])
+    nested = rng.random() < 0.1
+
+    def build(ms, shuffle_rest):
+        g = ["G", list(ms)]
+        tree = ([["G", [["T", "Building"], g]]] if nested else [g]) + copy.deepcopy(others)
+        if shuffle_rest:
+            rng.shuffle(tree)
+        return tree
+    base_tree = build(members, True)
+    base = render(rng, base_tree, respell=rng.random() < 0.3, blanks=rng.random() < 0.3)
+    n = len(members)
+    if all_orders or n <= 3:
+        orders = list(itertools.permutations(range(n)))
+        if len(orders) > 120:
+            orders = rng.sample(orders, 120)
+    else:
+        orders = list({tuple(rng.sample(range(n), n)) for _ in range(16)})[:12]
+    rewrites = []
+    for k, o in enumerate(orders):
+        ms = [members[i] for i in o]
+        fancy = k % 4 == 3
+        rewrites.append(render(rng, build(ms, fancy), respell=fancy and rng.random() < 0.7, blanks=fancy and rng.random() < 0.5))
+    return {"base": base, "rewrites": rewrites, "planted": None, "stream": "tgroup", "depth": depth_of(base_tree)}
+
+
 def gen_history(rng):
     """A sequence of annotations for ONE schema object.  Value-taking tags recur in the same path spelling (short,
     partial or full path; the letter case of the NAME varies) with values / units that differ in letter case only,
@@ -1023,10 +1127,23 @@ def wf_top(top):
     return True
 
 
+def tags_consistent(top):
+    """hypothesis of C04_onset_invariant_order: a tag is found as temporal key by its case-folded short_base_tag
+    exactly when its short_base_tag is Onset / Offset / Inset (ids 2..4), and then both ids agree"""
+    for n in top:
+        if n[0] == "T":
+            b, bf = n[6], n[7]
+            if (bf in (2, 3, 4)) != (b in (2, 3, 4)) or (bf in (2, 3, 4) and b != bf):
+                return False
+        elif not tags_consistent(n[1:]):
+            return False
+    return True
+
+
 def sx_tree(top):
     def node(n):
         if n[0] == "T":
-            return ["T", n[1], n[2], n[3], n[4], n[5], n[6], n[7], n[8], n[9]]
+            return ["T", n[1], n[2], n[3], n[4], n[5], n[6], n[7], n[8], n[9], n[10]]
         return ["G"] + [node(c) for c in n[1:]]
     return [node(n) for n in top]
 
@@ -1042,7 +1159,7 @@ def correspond(cases_direct, res, counts):
     for d, m in zip(todo, outs):
         counts["corr"] += 1
         if d["whole"][0] == "ok":
-            for k in d["whole"][1]:
+            for k in d["whole"][1] + (d["onset"][1] if d["onset"][0] == "ok" else []):
                 counts["kind_" + k] += 1
         else:
             counts["kind_raises_" + d["whole"][1]] += 1
@@ -1053,7 +1170,7 @@ def correspond(cases_direct, res, counts):
             def mres(x):
                 return ["ok", list(x[1:])] if x[0] == "ok" else ["exn", x[1]]
             pairs = [("alltags", ["ok", list(m[0])]), ("taglevel", mres(m[1])), ("dups", mres(m[2])),
-                     ("duration", ["ok", list(m[3])]), ("whole", mres(m[4]))]
+                     ("duration", ["ok", list(m[3])]), ("whole", mres(m[4])), ("onset", ["ok", list(m[6])])]
             for name, mv in pairs:
                 iv = d[name]
                 # multisets: the order in which issues are emitted is not part of the property
@@ -1067,6 +1184,8 @@ def correspond(cases_direct, res, counts):
                     diffs.append(f"codes: impl={d['whole'][2]} model={mcodes}")
                 if [table.get(k) for k in d["whole"][1]] != d["whole"][2]:
                     diffs.append("translated kind->code table disagrees with the issue dicts")
+            if not tags_consistent(d["top"]):
+                diffs.append("consistency hypothesis (short_base_tag and its case-folded form agree on the temporal keys) violated")
             if not wf_top(d["top"]):
                 diffs.append("well-formedness hypothesis (non-empty, delimiter-free folded short form) violated")
         if diffs:
@@ -1093,6 +1212,9 @@ def run(tier, seed, res, model_ok=True, proof_ok=True):
         cases.append(gen_collide(rng))
     for _ in range(n * 2):
         cases.append(gen_twin(rng))
+    spellings()
+    for _ in range(n * 3 if tier == "quick" else n):
+        cases.append(gen_tgroup(rng, all_orders=(tier != "quick")))
     spellings()  # needed by the history generator
     for _ in range(n // 2):
         cases.append(gen_history(rng))
@@ -1129,7 +1251,9 @@ def run(tier, seed, res, model_ok=True, proof_ok=True):
                 "tag name, re-blanking) + a collision stream (two copies of a group written in different member order / "
                 "spelling among >= 3 sibling groups that share the flattened tags but differ in nesting, or differ in one "
                 "member, at depth 1-3; direct-call correspondence also on 3 rewrites each) + a twin stream (a top-level tag "
-                "group and a copy of it nested at another depth) + a history stream (4-8 annotations and their rewrites "
+                "group and a copy of it nested at another depth) + a temporal-group stream (marker x Def tag / Def with value / Def-expand group x "
+                "Delay x Duration x 0-2 inner groups x stray tag, rewritten in up to 12 member orders -- all orders in the "
+                "thorough tier) + a history stream (4-8 annotations and their rewrites "
                 "validated one after the other with ONE schema object, value-taking tags recurring in the same path "
                 "spelling with values/units differing in letter case; each verdict compared with a schema object "
                 "without history) + a malformed-text stream with re-blanking only; a schema object serves 5 consecutive cases and what it validated before is part of a "
